@@ -1097,6 +1097,49 @@ func c17ConfigOracle(rep *Report) {
 			}
 		}
 	}
+	// the same in the NON-strict configurations: undefined variables allowed (in both option orders), and no
+	// environment at all - a mapping that names a function which does not exist is rejected there too
+	for _, kind := range c17All {
+		sample := c17EnvAs(c17BaseEnv(), kind)
+		variants := []struct {
+			name string
+			ops  func(op string, fns []string) []expr.Option
+		}{
+			{"Env + AllowUndefinedVariables", func(op string, fns []string) []expr.Option {
+				return []expr.Option{expr.Env(sample), expr.AllowUndefinedVariables(), expr.Operator(op, fns...)}
+			}},
+			{"Env + Operator + AllowUndefinedVariables", func(op string, fns []string) []expr.Option {
+				return []expr.Option{expr.Env(sample), expr.Operator(op, fns...), expr.AllowUndefinedVariables()}
+			}},
+			{"no Env", func(op string, fns []string) []expr.Option { return []expr.Option{expr.Operator(op, fns...)} }},
+			{"no Env + AllowUndefinedVariables", func(op string, fns []string) []expr.Option {
+				return []expr.Option{expr.AllowUndefinedVariables(), expr.Operator(op, fns...)}
+			}},
+		}
+		for _, vr := range variants {
+			for _, fns := range [][]string{{"NoSuchFn"}, {"Add", "NoSuchFn"}, {"NoSuchFn", "Add"}} {
+				if strings.HasPrefix(vr.name, "no Env") && len(fns) > 1 {
+					continue // without an environment `Add` does not exist either
+				}
+				for _, src := range srcs {
+					for _, op := range []string{"+", "=="} {
+						rep.Evaluations++
+						rep.hist("config (non-strict): missing function")
+						_, err, panicked := c17CompileSafe(src, vr.ops(op, fns))
+						in := map[string]interface{}{"config": true, "env": kind, "options": vr.name, "operator": op, "functions": fns, "expr": src, "why": "function missing from the environment"}
+						if panicked || err == nil {
+							got := "compiled"
+							if panicked {
+								got = "panic: " + err.Error()
+							}
+							rep.fail(Failure{Key: "C17-config-accepts", What: "an operator mapping naming a function that does not exist is not rejected (" + vr.name + ")", Input: in,
+								Want: "an error from expr.Compile", Got: got})
+						}
+					}
+				}
+			}
+		}
+	}
 	// well-shaped mappings are accepted (otherwise nothing above is informative)
 	for _, tb := range c17Tables {
 		for _, kind := range tb.Envs {
